@@ -5,11 +5,14 @@ package main
 
 import (
 	"bufio"
+	"context"
 	"fmt"
 	"log"
 	"os"
+	"runtime"
 	"strconv"
 	"strings"
+	"time"
 
 	z80 "github.com/koron-go/z80"
 )
@@ -47,9 +50,24 @@ func (m memory) Set(addr uint16, v uint8) {
 	m.w.mem[addr] = v
 }
 
-type ioDev struct{ w *world }
+type ioDev struct {
+	w *world
+	// optional trigger: on the n-th port access raise an interrupt request on the CPU
+	cpu   *z80.CPU
+	trigN int
+	count int
+	irq   *z80.Interrupt
+}
 
-func (d ioDev) In(addr uint8) uint8 {
+func (d *ioDev) touch() {
+	d.count++
+	if d.cpu != nil && d.trigN > 0 && d.count == d.trigN {
+		d.cpu.Interrupt = d.irq
+	}
+}
+
+func (d *ioDev) In(addr uint8) uint8 {
+	defer d.touch()
 	var v uint8
 	if len(d.w.inputs) > 0 {
 		v = d.w.inputs[0]
@@ -58,7 +76,7 @@ func (d ioDev) In(addr uint8) uint8 {
 	d.w.ev(2, int(addr), int(v))
 	return v
 }
-func (d ioDev) Out(addr uint8, v uint8) { d.w.ev(3, int(addr), int(v)) }
+func (d *ioDev) Out(addr uint8, v uint8) { d.w.ev(3, int(addr), int(v)); d.touch() }
 
 type retiH struct{ w *world }
 
@@ -93,7 +111,22 @@ func (t *toks) n() int {
 
 var cur *world
 
-func runStep(t *toks, out *bufio.Writer) {
+type sch struct {
+	at, kind int
+	data     []uint8
+}
+
+type parsed struct {
+	id        string
+	nsteps    int
+	tracemode int
+	cpu       *z80.CPU
+	w         *world
+	sched     []sch
+	dev       *ioDev
+}
+
+func parseCase(t *toks) *parsed {
 	id := t.s()
 	_ = t.n() // model selector (for the Coq side)
 	nsteps := t.n()
@@ -106,10 +139,6 @@ func runStep(t *toks, out *bufio.Writer) {
 	im := t.n()
 	halt := t.n() != 0
 	io, reti, retn := t.n() != 0, t.n() != 0, t.n() != 0
-	type sch struct {
-		at, kind int
-		data     []uint8
-	}
 	var sched []sch
 	for k := t.n(); k > 0; k-- {
 		s := sch{at: t.n(), kind: t.n()}
@@ -147,8 +176,9 @@ func runStep(t *toks, out *bufio.Writer) {
 		Memory: memory{w},
 		HALT:   halt,
 	}
+	dev := &ioDev{w: w}
 	if io {
-		cpu.IO = ioDev{w}
+		cpu.IO = dev
 	}
 	if reti {
 		cpu.RETIHandler = retiH{w}
@@ -156,6 +186,12 @@ func runStep(t *toks, out *bufio.Writer) {
 	if retn {
 		cpu.RETNHandler = retnH{w}
 	}
+	return &parsed{id, nsteps, tracemode, cpu, w, sched, dev}
+}
+
+func runStep(t *toks, out *bufio.Writer) {
+	pc := parseCase(t)
+	id, nsteps, cpu, w, sched := pc.id, pc.nsteps, pc.cpu, pc.w, pc.sched
 	cur = w
 	panicked := func() (p bool) {
 		defer func() {
@@ -177,6 +213,10 @@ func runStep(t *toks, out *bufio.Writer) {
 	if panicked {
 		w.ev(7, 0, 0)
 	}
+	printState(out, id, cpu, w)
+}
+
+func printState(out *bufio.Writer, id string, cpu *z80.CPU, w *world) {
 	b := func(v bool) int {
 		if v {
 			return 1
@@ -193,6 +233,105 @@ func runStep(t *toks, out *bufio.Writer) {
 		fmt.Fprintf(out, " %d %d %d", e.k, e.a, e.v)
 	}
 	fmt.Fprintln(out)
+}
+
+// run: CPU.Run with break points, optional cancellation, repeated calls, an interrupt raised by a port callback.
+// extras after the common part: nbp (-1 = nil map) bps... cancelmode(0 never,1 before the call,2 after ms) ms nruns trigN trigKind trigNd data...
+func runRun(t *toks, out *bufio.Writer) {
+	pc := parseCase(t)
+	cpu, w := pc.cpu, pc.w
+	nbp := t.n()
+	if nbp >= 0 {
+		cpu.BreakPoints = map[uint16]struct{}{}
+		for i := 0; i < nbp; i++ {
+			cpu.BreakPoints[uint16(t.n())] = struct{}{}
+		}
+	}
+	cancelMode, ms, nruns := t.n(), t.n(), t.n()
+	trigN, trigKind, trigNd := t.n(), t.n(), t.n()
+	var data []uint8
+	for i := 0; i < trigNd; i++ {
+		data = append(data, uint8(t.n()))
+	}
+	if trigN > 0 {
+		pc.dev.cpu, pc.dev.trigN, pc.dev.irq = cpu, trigN, &z80.Interrupt{Type: z80.InterruptType(trigKind), Data: data}
+	}
+	for _, s := range pc.sched {
+		if s.at == 0 {
+			cpu.Interrupt = &z80.Interrupt{Type: z80.InterruptType(s.kind), Data: s.data}
+		}
+	}
+	cur = w
+	time.Sleep(2 * time.Millisecond)
+	base := runtime.NumGoroutine()
+	var cancels []context.CancelFunc
+	for r := 0; r < nruns; r++ {
+		ctx, cancel := context.WithCancel(context.Background())
+		cancels = append(cancels, cancel)
+		switch cancelMode {
+		case 1:
+			cancel()
+		case 2:
+			go func() { time.Sleep(time.Duration(ms) * time.Millisecond); cancel() }()
+		}
+		type res struct {
+			err   error
+			panic bool
+		}
+		ch := make(chan res, 1)
+		t0 := time.Now()
+		go func() {
+			defer func() {
+				if e := recover(); e != nil {
+					ch <- res{nil, true}
+				}
+			}()
+			ch <- res{cpu.Run(ctx), false}
+		}()
+		code, late := 0, 0
+		select {
+		case x := <-ch:
+			switch {
+			case x.panic:
+				code = 4
+			case x.err == nil:
+				code = 0
+			case x.err == z80.ErrBreakPoint:
+				code = 1
+			case x.err == ctx.Err():
+				code = 2
+			default:
+				code = 5
+			}
+		case <-time.After(5 * time.Second):
+			code = 3
+			cancel()
+			<-ch
+		}
+		el := time.Since(t0)
+		if cancelMode == 2 && el > time.Duration(ms+1000)*time.Millisecond {
+			late = 1
+		}
+		fmt.Fprintf(out, "%s.%d.res %d %d\n", pc.id, r, code, late)
+		printState(out, fmt.Sprintf("%s.%d", pc.id, r), cpu, w)
+	}
+	// goroutines that outlive Run although its context is still live are leaks (the parent contexts are cancelled only now)
+	if cancelMode == 2 {
+		time.Sleep(time.Duration(ms+5) * time.Millisecond)
+	}
+	leak := 0
+	for i := 0; i < 50; i++ {
+		leak = runtime.NumGoroutine() - base
+		if leak <= 0 {
+			break
+		}
+		time.Sleep(2 * time.Millisecond)
+	}
+	fmt.Fprintf(out, "%s.gor %d\n", pc.id, leak)
+	for _, c := range cancels {
+		c()
+	}
+	cur = nil
 }
 
 func mkgpr(a, f int) z80.GPR {
@@ -220,6 +359,8 @@ func main() {
 		switch t.s() {
 		case "step":
 			runStep(t, out)
+		case "run":
+			runRun(t, out)
 		case "getflag":
 			id, a, fl, m := t.s(), t.n(), t.n(), t.n()
 			r := 0
